@@ -38,6 +38,7 @@ func runC08(c *Ctx) {
 		"C08.1 the two precedence functions, evaluated over their whole finite input domain, give the documented total order deny > write > list > read and the documented grant table",
 		"C08.2 merging a token's policies never mutates a rule object that is shared with the parsed-policy cache (no in-place store through a merge-map entry that aliases an input rule)",
 		"C08.3 every policyAuthorizer method asks for the access level its name says and siblings of one resource consult the same rule tree; chained and allow authorizers delegate to the like-named method with their own arguments",
+		"C08.6 the per-leaf decision of the any-allowed / all-allowed walks (ServiceReadAll, ServiceWriteAny, wildcard intentions …) evaluates the leaf's prefix rule on every path on which the leaf has one: an exact rule of the same name must not hide it, because the prefix rule also governs every longer name",
 		"C08.5 the functions that combine the identities and templated policies of a token's roles (Deduplicate) never write through, or sort in place, an element of their input: the inputs are the role objects held in the cache / state store, shared by every token that uses the role",
 		"C08.4 the authorizer cache key folds ID and ModifyIndex of every policy of the receiver that is compiled; the parsed-policy cache key is the policy's content hash",
 	}
@@ -589,6 +590,7 @@ func checkCacheKeys(c *Ctx) {
 	}
 	r.Floor("C08.4", 3)
 	checkCombinersDoNotWriteInputs(c)
+	checkWildcardLeafConsidersPrefix(c)
 }
 
 func collectFieldLoads(v ssa.Value, out map[string]bool, depth int) {
@@ -682,4 +684,120 @@ func checkCombinersDoNotWriteInputs(c *Ctx) {
 		}
 	}
 	r.Floor("C08.5", 3)
+}
+
+// C08.6
+func checkWildcardLeafConsidersPrefix(c *Ctx) {
+	p, r := c.P, c.R
+	isPrefixEnforce := func(in ssa.Instruction) bool {
+		ci, ok := in.(ssa.CallInstruction)
+		if !ok {
+			return false
+		}
+		g := ci.Common().StaticCallee()
+		if g == nil || g.Name() != "enforce" {
+			return false
+		}
+		for _, a := range ci.Common().Args {
+			acc := core.AccessOf(a)
+			if acc.HasField("prefix") && acc.LastField() == "access" {
+				return true
+			}
+		}
+		return false
+	}
+	var must func(f *ssa.Function, stack map[*ssa.Function]bool) (bool, string)
+	must = func(f *ssa.Function, stack map[*ssa.Function]bool) (bool, string) {
+		if f == nil || f.Blocks == nil || stack[f] {
+			return false, ""
+		}
+		stack[f] = true
+		defer delete(stack, f)
+		// edges on which the leaf has no prefix rule
+		cut := map[core.Edge]bool{}
+		for _, b := range f.Blocks {
+			for _, in := range b.Instrs {
+				cmp, ok := in.(*ssa.BinOp)
+				if !ok || (cmp.Op != token.EQL && cmp.Op != token.NEQ) {
+					continue
+				}
+				var other ssa.Value
+				if core.IsNilConst(cmp.Y) {
+					other = cmp.X
+				} else if core.IsNilConst(cmp.X) {
+					other = cmp.Y
+				}
+				if other == nil || core.AccessOf(other).LastField() != "prefix" {
+					continue
+				}
+				te, fe := core.CondEdges(cmp)
+				isNil := te
+				if cmp.Op == token.NEQ {
+					isNil = fe
+				}
+				for _, e := range isNil {
+					cut[e] = true
+				}
+			}
+		}
+		mf := &core.MustFlow{F: f, Cut: func(b *ssa.BasicBlock, si int) bool { return cut[core.Edge{From: b, Succ: si}] },
+			Gen: func(in ssa.Instruction) []string {
+				if isPrefixEnforce(in) {
+					return []string{"prefix"}
+				}
+				if ci, ok := in.(ssa.CallInstruction); ok {
+					if g := ci.Common().StaticCallee(); g != nil && g.Pkg == f.Pkg && g.Name() != "enforce" {
+						if ok2, _ := must(g, stack); ok2 {
+							return []string{"prefix"}
+						}
+					}
+				}
+				return nil
+			}}
+		mf.Run()
+		for _, rt := range core.Returns(f) {
+			if s, ok := mf.At(rt); ok && !s["prefix"] {
+				return false, p.Pos(rt.Pos())
+			}
+		}
+		return true, ""
+	}
+	n := 0
+	for _, f := range p.SrcFuncs("acl") {
+		for _, b := range f.Blocks {
+			for _, in := range b.Instrs {
+				ci, ok := in.(ssa.CallInstruction)
+				if !ok {
+					continue
+				}
+				g := ci.Common().StaticCallee()
+				if g == nil || g.Signature.Recv() != nil || (g.Name() != "anyAllowed" && g.Name() != "allAllowed") {
+					continue
+				}
+				for _, a := range ci.Common().Args {
+					if ct, ok := a.(*ssa.ChangeType); ok {
+						a = ct.X
+					}
+					var cb *ssa.Function
+					switch x := a.(type) {
+					case *ssa.MakeClosure:
+						cb, _ = x.Fn.(*ssa.Function)
+					case *ssa.Function:
+						cb = x
+					}
+					if cb == nil {
+						continue
+					}
+					n++
+					construct := core.FuncName(f) + "/" + g.Name() + "-leaf"
+					if ok2, where := must(cb, map[*ssa.Function]bool{}); ok2 {
+						r.Hold("C08.6", construct, p.FuncPos(cb), "the prefix rule of a leaf is evaluated on every path on which it exists")
+					} else {
+						r.Violate("C08.6", construct, p.FuncPos(cb), "the per-leaf decision can be returned (at "+where+") without evaluating the leaf's prefix rule although it exists: an exact rule for the same name hides it, so with service_prefix \"web\" deny + service \"web\" read the all-allowed check (ServiceReadAll) answers Allow while ServiceRead(\"web-admin\") is Deny")
+					}
+				}
+			}
+		}
+	}
+	r.Floor("C08.6", 2)
 }
